@@ -24,6 +24,9 @@ PLAN = {
     ],
     "C12": [(3, 3, range(100, 112), 0.05), (0, 2, range(100, 108), 0.2)],
 }
+# generated scenarios (C05 only): `nsim export-e2` draws them from the C05 swarm generator with
+# VERIF_SEED, so another seed is another set of small networks on the real pool
+GENERATED = {"C05": (12, 3, [(3, 0.05), (2, 0.2)])}   # count, miri seeds per (threads, rate)
 SCENARIOS = {
     0: "dense 4-5-3, Adam, 6 samples, batch 4, 2 epochs, validation 5, predict_batch 7",
     1: "conv(dropout 0.3)+maxpool+softmax dense, SGDM, cross-entropy, 5 samples, batch 3",
@@ -76,14 +79,45 @@ def main():
             return 2
         refs[sc] = d
     jobs = []
+    argv = {}
     for (sc, threads, seeds, rate) in PLAN[prop]:
         for seed in seeds:
             # odd seeds also change the hash seed (run-to-run hasher randomness)
-            jobs.append((sc, threads, seed, rate, seed if seed % 2 else 0))
+            j = (sc, threads, seed, rate, seed if seed % 2 else 0)
+            jobs.append(j)
+            argv[j] = [sc, threads, j[4], mode]
+    generated = []
+    if prop in GENERATED:
+        count, per, combos = GENERATED[prop]
+        gen_file = base + "/build/e2-generated.json"
+        nsim = base + "/build/target/release/nsim"
+        g = subprocess.run([nsim, "export-e2", str(count), "--out", gen_file], stdout=subprocess.DEVNULL, stderr=subprocess.PIPE, text=True)
+        if g.returncode != 0 or not os.path.exists(gen_file):
+            print("HARNESS-ERROR E2 scenario export failed:", g.stderr[-400:])
+            return 2
+        generated = json.load(open(gen_file))
+        for i, sc_json in enumerate(generated):
+            key = f"g{i}"
+            SCENARIOS[key] = "generated: " + "+".join(list(l.keys())[0] for l in sc_json["net"]["layers"]) + \
+                f", {list(sc_json['net']['optimizer'].keys())[0] if isinstance(sc_json['net'].get('optimizer'), dict) else sc_json['net'].get('optimizer')}, {len(sc_json['train']['x'])} samples, batch {sc_json['batch']}, predict_batch {len(sc_json['pred'])}"
+            text = json.dumps(sc_json, separators=(",", ":"))
+            d, r = miri(base, ["gen", text, 1, 0], 0, 0.0)
+            if d is None:
+                print("HARNESS-ERROR E2 generated reference run failed:", r.stderr[-600:])
+                return 2
+            refs[key] = d
+            n = 0
+            for (threads, rate) in combos:
+                for k in range(per):
+                    seed = 1000 + 10 * i + n
+                    n += 1
+                    j = (key, threads, seed, rate, seed if seed % 2 else 0)
+                    jobs.append(j)
+                    argv[j] = ["gen", text, threads, j[4]]
     results = []
     workers = min(16, os.cpu_count() or 4)
     with ThreadPoolExecutor(max_workers=workers) as ex:
-        futs = [(j, ex.submit(miri, base, [j[0], j[1], j[4], mode], j[2], j[3])) for j in jobs]
+        futs = [(j, ex.submit(miri, base, argv[j], j[2], j[3])) for j in jobs]
         for j, fut in futs:
             d, r = fut.result()
             results.append((j, d, r))
@@ -105,7 +139,8 @@ def main():
         path = f"{root}/replays/{prop}-e2-s{sc}-t{threads}-seed{seed}.json"
         json.dump({"property": prop, "engine": "E2", "scenario": sc, "scenario_text": SCENARIOS[sc], "threads": threads,
                    "miri_seed": seed, "preemption_rate": rate, "hash_seed": hseed, "miri_flags": FLAGS,
-                   "argv": [sc, threads, hseed, mode], "expected_digest": refs[sc], "got_digest": d,
+                   "argv": argv[(sc, threads, seed, rate, hseed)],
+                   "expected_digest": refs[sc], "got_digest": d,
                    "replay_cmd": "./check replay <this file>"}, open(path, "w"), indent=1)
         lines.append(f"VIOLATION property={prop} replay={path} engine=E2 scenario={sc} threads={threads} miri_seed={seed} digest={d} expected={refs[sc]}")
     # merge into the evidence file written by E1
@@ -116,6 +151,7 @@ def main():
             "executions": len(results), "distinct_miri_seeds": len({j[2] for j, _, _ in results}),
             "plan": [{"scenario": SCENARIOS[p[0]], "threads": p[1], "seeds": [p[2].start, p[2].stop], "preemption_rate": p[3]} for p in PLAN[prop]],
             "mismatches": len(violations), "harness_errors": len(errors), "wall_s": wall,
+            "generated_scenarios": [SCENARIOS[k] for k in SCENARIOS if isinstance(k, str)],
             "executions_per_hour": int(len(results) / wall * 3600) if wall > 0 else 0,
             "flags": FLAGS,
             "components": {"real": ["/repo/src", "rayon 1.10.0", "rayon-core 1.12.1", "crossbeam", "std threads (interpreted by Miri)"], "stub": ["HashMap hasher (seeded)", "SystemTime (simulated clock)"]},
